@@ -27,7 +27,7 @@ REACH = {"quick": {"join:left_join": 1000, "join:full_join": 1000, "join:semi_jo
                    "no-match": 200, "na-key-left": 500, "na-key-right": 500, "dup-right": 1000, "renamed": 1000, "after-inplace-edit": 500}}
 
 JOINS = ["left_join", "inner_join", "semi_join", "anti_join", "full_join"]
-KEY_KINDS = ["int", "int", "str", "str", "float", "date", "bool", "lstr", "datetime", "obool", "ustr", "timedelta", "uint64", "int_be", "datetime_be"]
+KEY_KINDS = ["int", "int", "str", "str", "float", "date", "bool", "lstr", "datetime", "obool", "ustr", "timedelta", "uint64", "int_be", "datetime_be", "datetime_ns"]
 
 def generate(rng, tier):
     tags = set()
